@@ -123,6 +123,11 @@ func streamReg(o opts) {
 	for t := 0; t < o.n; t++ {
 		mg := kioshun.NewManager()
 		w.T(sidReg, &toks{})
+		var rec [][2]*toks // the same calls are replayed on RegistryLts (sid 18) after the trace
+		emit := func(op, res *toks) {
+			w.O(op, res)
+			rec = append(rec, [2]*toks{op, res})
+		}
 		ids := map[any]int64{}
 		next := int64(1)
 		idOf := func(c any) int64 {
@@ -147,7 +152,7 @@ func streamReg(o opts) {
 			case c < 20:
 				rt := r.Intn(4)
 				err := regRegister(mg, name, rt, cfg)
-				w.O(ints(1, int64(ni), int64(rt)).B(valid), ints(regErr(err), 0))
+				emit(ints(1, int64(ni), int64(rt)).B(valid), ints(regErr(err), 0))
 				m.count("register")
 			case c < 50:
 				inst, err := regGet(mg, name, ty)
@@ -159,7 +164,7 @@ func streamReg(o opts) {
 						m.violate("C17", fmt.Sprintf("GetCache(%s) returned a closed instance", name), fmt.Sprint(t))
 					}
 				}
-				w.O(ints(2, int64(ni), int64(ty)), ints(regErr(err), id))
+				emit(ints(2, int64(ni), int64(ty)), ints(regErr(err), id))
 				m.count("getcache")
 			case c < 80:
 				inst, err := regGetCfg(mg, name, ty, cfg)
@@ -171,7 +176,7 @@ func streamReg(o opts) {
 						m.violate("C17", fmt.Sprintf("GetCacheWithConfig(%s) returned a closed instance", name), fmt.Sprint(t))
 					}
 				}
-				w.O(ints(3, int64(ni), int64(ty)).B(valid), ints(regErr(err), id))
+				emit(ints(3, int64(ni), int64(ty)).B(valid), ints(regErr(err), id))
 				m.count("getcachewithconfig")
 			case c < 92:
 				before := map[any]bool{}
@@ -179,16 +184,16 @@ func streamReg(o opts) {
 					before[x] = isClosedCache(x)
 				}
 				mg.Remove(name)
-				w.O(ints(4, int64(ni)), ints(0, 0))
+				emit(ints(4, int64(ni)), ints(0, 0))
 				if _, err := regGet(mg, name, ty); !errors.Is(err, kioshun.ErrCacheNotRegistered) {
 					m.violate("C17", fmt.Sprintf("after Remove(%s) GetCache returned %v, want ErrCacheNotRegistered", name, err), fmt.Sprint(t))
 				} else {
-					w.O(ints(2, int64(ni), int64(ty)), ints(2, 0))
+					emit(ints(2, int64(ni), int64(ty)), ints(2, 0))
 				}
 				m.count("remove")
 			default:
 				mg.CloseAll()
-				w.O(ints(5), ints(0, 0))
+				emit(ints(5), ints(0, 0))
 				for _, x := range created {
 					if !isClosedCache(x) {
 						m.violate("C17", "CloseAll left a live instance", fmt.Sprint(t))
@@ -197,6 +202,10 @@ func streamReg(o opts) {
 				created = nil
 				m.count("closeall")
 			}
+		}
+		w.T(18, &toks{})
+		for _, x := range rec {
+			w.O(x[0], x[1])
 		}
 		mg.CloseAll()
 		if t < 2 {
